@@ -3,6 +3,8 @@ import ThriftVerif.Facts.ExpectWire
 import ThriftVerif.Facts.ExpectGen
 #print axioms ThriftVerif.Properties.C01.roundtrip_all_paths_partial
 #print axioms ThriftVerif.Properties.C01.field_order_irrelevant
+#print axioms ThriftVerif.Properties.C01.set_order_irrelevant
+#print axioms ThriftVerif.Properties.C01.map_order_irrelevant
 #print axioms ThriftVerif.Properties.C01.serialised_is_well_typed
 #print axioms ThriftVerif.Properties.C01.required_unset_rejected
 #print axioms ThriftVerif.Properties.C01.union_arity_rejected
